@@ -22,7 +22,9 @@ RULE = ("one case = own id + table mode + up to 60 (quick) / 110 (thorough) ops:
         "/ mark failed / find_close_peers(key,count,sender) / get_peer. Contact ids are generated as XOR distances: "
         "shared prefix 0..383 bits with zero / all-ones / hashed tails, signed sums of <=3 powers of two +-1, and "
         "the live table's bucket range_min / range_max-1 / range_max / midpoint (+-1) resolved at run time; "
-        "addresses come from a pool of 6..48. Every ping outcome (ok / timeout / remote error) is generated. "
+        "addresses come from a pool of 6..48. Every ping outcome (ok / timeout / remote error) is generated; some adds carry a race: "
+        "the first contact probed re-adds itself from a fresh endpoint while the ping to its old endpoint is in flight (that add "
+        "completes, then the old ping times out) - it may then be displaced only after a failed probe of its new endpoint. "
         "non-trivial = the run contains >=1 bucket split and >=1 join of a non-edge empty bucket; distinct = "
         "distinct canonical JSON of the case.")
 ASSUMPTIONS = [
